@@ -18,7 +18,8 @@ JThreads == 1..3
 JNone == {0}
 
 VARIABLES l, bad, notes,
-          win     \* per goroutine: the values the peer's unpaid balance had while its Reserve was in flight
+          win,    \* per goroutine: the values the peer's unpaid balance had while its Reserve was in flight
+          due     \* peers for which a payment request is owed but the pay channel could not be inspected yet
 
 ProbeLo == 0 - 2
 TrueCount(s) == Cardinality({i \in DOMAIN s : s[i]})
@@ -30,28 +31,40 @@ CallOfEv(e) == Call(e.kind, e.p, e.x, e.traff, e.avail)
 ThreadEv(e) == e.op \in {"call", "grant", "release"}
 
 \* ------------------------------------------------------------------ the model follows the observed sections
+\* where goroutine t (call c) was observed after it went on: parked in its first contact, in a section, or blocked
+Arrive(a, t, c, e) ==
+  IF e.arrived = "blocked" THEN [a EXCEPT !.pc[t] = IF a.maplock # 0 THEN "mwait" ELSE "wait", !.loc[t] = c]
+  ELSE IF e.arrived = "gate" /\ e.gate = "retrieve_traffic" THEN [a EXCEPT !.pc[t] = "init", !.loc[t] = c, !.maplock = t]
+  ELSE IF e.arrived \in {"gate", "ret"} THEN Enter([a EXCEPT !.known[c.p] = TRUE], t, c)
+  ELSE a
+
 Model(e, a) ==
   IF ~ThreadEv(e) THEN a
   ELSE LET t == e.t
            c == CallOfEv(e)
-       IN CASE e.op = "call" ->
-                 IF e.arrived = "blocked" THEN [a EXCEPT !.pc[t] = "wait", !.loc[t] = c]
-                 ELSE IF e.arrived \in {"gate", "ret"} THEN Enter(a, t, c)
-                 ELSE a
-            [] e.op = "grant" ->
-                 IF e.arrived \in {"gate", "ret"}
-                 THEN IF a.granted = t THEN Grant(a, t) ELSE Enter([a EXCEPT !.granted = 0], t, c)
-                 ELSE a
+           a0 == [a EXCEPT !.granted = 0]
+       IN CASE e.op = "call" -> Arrive(a, t, c, e)
+            [] e.op = "grant" -> Arrive(a0, t, c, e)
             [] e.op = "release" ->
-                 IF e.done /\ AtGate(a, t) THEN Release([a EXCEPT !.granted = 0], t) ELSE a
+                 IF ~e.done THEN a
+                 ELSE IF e.from = "retrieve_traffic"          \* first contact over: peer inserted, map mutex released
+                 THEN Arrive([a0 EXCEPT !.known[c.p] = TRUE, !.maplock = IF @ = t THEN 0 ELSE @, !.pc[t] = "idle"], t, c, e)
+                 ELSE IF AtGate(a, t) /\ a.pc[t] # "init" THEN Release(a0, t)
+                 ELSE a
 
 \* the balance of peer p while a Reserve of goroutine t is (still) in flight
-InFlightReserve(a, t) == a.loc[t].kind = "reserve" /\ a.pc[t] \in {"r_bal", "wait"}
+InFlightReserve(a, t) == a.loc[t].kind = "reserve" /\ a.pc[t] \in {"r_bal", "wait", "mwait", "init"}
 WinAfter(e, a, post) ==
   [t \in Threads |->
      IF ThreadEv(e) /\ e.t = t /\ e.op = "call" /\ e.kind = "reserve" THEN {a.unpaid[e.p], post.unpaid[e.p]}
      ELSE IF InFlightReserve(a, t) THEN win[t] \cup {post.unpaid[a.loc[t].p]}
      ELSE win[t]]
+
+\* peers for which a payment request must have been issued by now: a credit returned with the balance at or
+\* above the threshold (the request is observed with the first event at which the pay channel could be flushed)
+DueAfter(e, a) ==
+  IF ThreadEv(e) /\ e.kind = "credit" /\ e.arrived = "ret" /\ e.err = "" /\ a.unpaid[e.p] >= Thr
+  THEN due \cup {e.p} ELSE due
 
 \* ------------------------------------------------------------------ verdict: the statement of C32
 Verdict(e, a, post) ==
@@ -59,8 +72,8 @@ Verdict(e, a, post) ==
   ELSE IF ~ThreadEv(e) THEN <<>>
   ELSE
      \* a payment is requested whenever a credit leaves the unpaid balance at or above the threshold
-     (IF e.kind = "credit" /\ e.arrived = "ret" /\ e.err = ""
-      THEN Clause("C32:payment_requested_when_credit_reaches_threshold", a.unpaid[e.p] >= Thr => e.p \in PaySet(e))
+     (IF ~e.deferred
+      THEN Clause("C32:payment_requested_when_credit_reaches_threshold", DueAfter(e, a) \subseteq PaySet(e))
       ELSE <<>>)
      \* a request from a peer whose unsettled served traffic has reached the tolerance is refused and not recorded
   \o (IF e.op = "release" /\ e.done /\ e.from = "transfer_traffic"
@@ -76,7 +89,8 @@ Verdict(e, a, post) ==
      \* the unpaid balance equals credits minus notified payments and is never negative
   \o (IF e.probe # <<>>
       THEN Clause("C32:unpaid_balance_is_credits_minus_payments_never_negative",
-                  \A p \in Peers : /\ ProbeShape(e.probe[p])
+                  \A p \in Peers : e.probe[p] # <<>> =>
+                                   /\ ProbeShape(e.probe[p])
                                    /\ ProbeVal(e.probe[p]) = post.unpaid[p]
                                    /\ ProbeVal(e.probe[p]) >= 0)
       ELSE <<>>)
@@ -87,7 +101,12 @@ Notes(e, a, post) ==
   ELSE IF e.op = "skipped" THEN <<"call_skipped_goroutine_still_busy">>
   ELSE IF ~ThreadEv(e) THEN <<>>
   ELSE
-     (IF e.op = "call" THEN Clause("blocks_exactly_when_the_peer_lock_is_held", (e.arrived = "blocked") = Blocks(a, e.t, CallOfEv(e)))
+     (IF e.op = "call"
+      THEN Clause("blocks_exactly_when_a_needed_lock_is_held",
+                  (e.arrived = "blocked") = (a.maplock # 0 \/ (a.known[e.p] /\ Blocks(a, e.t, CallOfEv(e)))))
+      ELSE <<>>)
+  \o (IF e.op \in {"call", "grant"} /\ e.arrived = "gate" /\ e.gate = "retrieve_traffic"
+      THEN Clause("one_first_contact_at_a_time", a.maplock = 0 \/ a.maplock = e.t)
       ELSE <<>>)
   \o (IF e.kind = "credit" /\ e.arrived = "ret"
       THEN    Clause("payment_requested_only_at_threshold", e.p \in PaySet(e) => a.unpaid[e.p] >= Thr)
@@ -102,17 +121,17 @@ Notes(e, a, post) ==
 
 \* ------------------------------------------------------------------ monitor
 TInit == /\ l = 1 /\ A = InitA /\ res = [op |-> "init"] /\ nops = 0 /\ bad = <<>> /\ notes = <<>>
-         /\ win = [t \in Threads |-> {}]
+         /\ win = [t \in Threads |-> {}] /\ due = {}
 
 TStep ==
   /\ l <= NEvents
   /\ LET e == Trace[l]
          start == e.op = "reset"
-         a0 == IF start THEN [InitA EXCEPT !.unpaid = [p \in Peers |-> e.init[p]]] ELSE A
+         a0 == IF start THEN [InitA EXCEPT !.unpaid = [p \in Peers |-> e.init[p]], !.known = [p \in Peers |-> ~e.fresh]] ELSE A
          post == IF start THEN a0 ELSE Model(e, a0)
          cs == IF start
                THEN Clause("C32:unpaid_balance_is_credits_minus_payments_never_negative",
-                           \A p \in Peers : ProbeVal(e.probe[p]) = a0.unpaid[p])
+                           \A p \in Peers : e.probe[p] # <<>> => ProbeVal(e.probe[p]) = a0.unpaid[p])
                ELSE Verdict(e, a0, post)
          ns == IF start THEN <<>> ELSE Notes(e, a0, post)
          probed == (start \/ ThreadEv(e)) /\ e.probe # <<>>
@@ -120,13 +139,15 @@ TStep ==
         /\ bad' = IF cs = <<>> THEN bad ELSE Append(bad, BadRec(l, e, cs))
         /\ notes' = IF ns = <<>> \/ Len(notes) >= 20 THEN notes ELSE Append(notes, BadRec(l, e, ns))
         /\ A' = IF probed /\ cs # <<>>                          \* resynchronise to the probed balances
-                THEN [post EXCEPT !.unpaid = [p \in Peers |-> ProbeVal(e.probe[p])]]
+                THEN [post EXCEPT !.unpaid = [p \in Peers |-> IF e.probe[p] # <<>> THEN ProbeVal(e.probe[p]) ELSE @[p]]]
                 ELSE post
         /\ win' = IF start THEN [t \in Threads |-> {}] ELSE WinAfter(e, a0, post)
+        /\ due' = IF start \/ ~ThreadEv(e) THEN (IF start THEN {} ELSE due)
+                  ELSE IF e.deferred THEN DueAfter(e, a0) ELSE {}
         /\ res' = [op |-> e.op]
         /\ UNCHANGED nops
 
-TSpec == TInit /\ [][TStep]_<<vars, nops, l, bad, notes, win>>
+TSpec == TInit /\ [][TStep]_<<vars, nops, l, bad, notes, win, due>>
 
 Report == ReportBad(l, bad, notes)
 =============================================================================
